@@ -80,14 +80,16 @@ structure State (V : Type) where
   entry : Id
   nodes : IdMap (Node V)
   deleted : IdMap Unit
+  nextID : Nat := 0       -- the id handed to the next vector whose own id is 0
 
 /-- `NewHNSWIndex` (defaults already applied by the caller) -/
 def init {V : Type} (dim M efC efS : Nat) : State V :=
-  { dim, M, efC, efS, maxLevel := -1, entry := 0, nodes := .empty, deleted := .empty }
+  { dim, M, efC, efS, maxLevel := -1, entry := 0, nodes := .empty, deleted := .empty, nextID := 0 }
 
 inductive Fault
   | panic   -- nil map entry dereferenced / index out of range
   | fuel    -- a fuelled loop ran out of fuel (excluded by the fuel lemmas)
+  | autoId  -- a vector whose own id is 0 would be stored under another key (see `addWith`): not modelled
 deriving Repr, DecidableEq
 
 section
@@ -451,8 +453,8 @@ def addLinked (rf : Bool) (s : State V) (id : Id) (v' : V) (level : Nat) : Excep
     | .ok (s2, nx') =>
       .ok (if rf then s2 else { s2 with nodes := s2.nodes.set id nx' })
 
-/-- `HNSWIndex.Add` for an explicit non-zero id (`vector.ID() != 0`) and the level
-    that `randomLevel` drew.  `pick` is only used when `addFlushes s id`: it is the entry
+/-- `HNSWIndex.Add` for a vector with the given own id (0 included, see the QUIRK below) and
+    the level that `randomLevel` drew.  `pick` is only used when `addFlushes s id`: it is the entry
     point that this internal flush elects (`pick ∈ flushChoices s`). -/
 def addWith (rf : Bool) (s : State V) (id : Id) (v : V) (level : Nat) (pick : Id) :
     Except Fault (State V × Option Err) :=
@@ -464,9 +466,18 @@ def addWith (rf : Bool) (s : State V) (id : Id) (v : V) (level : Nat) (pick : Id
     let s := if id != 0 && s.deleted.contains id then flushTo s pick else s
     -- fix f98dc7f: a soft-deleted entry point cannot anchor new links: flush first
     let s := if s.deleted.contains s.entry then flushTo s pick else s
+    -- `if id == 0 { id = idx.nextID; idx.nextID++ }`.  QUIRK: id 0 is both a legal vertex id and
+    -- "assign me an id"; the stored node keeps its OWN id 0 (`node.ID()`, which is what the
+    -- neighbours' lists, Flush and the entry election use) whatever key it is stored under.
+    -- Key and own id agree exactly for the FIRST vector with id 0 (nextID = 0): that is modelled
+    -- (from then on 0 is an ordinary id).  A later vector with own id 0 would be stored under the
+    -- key nextID > 0 while its edges say 0 — outside the modelled fragment (`Fault.autoId`).
+    -- (`nextID` is written back after the linking: nothing in between reads or writes it.)
+    let key : Id := if id == 0 then s.nextID else id
+    if key != id then .error .autoId else
     match addLinked m rf s id v' level with
     | .error e => .error e
-    | .ok s' => .ok (s', none)
+    | .ok s' => .ok ({ s' with nextID := if id == 0 then s.nextID + 1 else s.nextID }, none)
 
 /-- the modelled code -/
 def add (s : State V) (id : Id) (v : V) (level : Nat) (pick : Id := s.entry) :
@@ -598,10 +609,10 @@ def nodupB : List Id → Bool
   | [] => true
   | a :: t => !t.contains a && nodupB t
 
-/-- every id is added at most once, and 0 (Go: "assign an id") is never used -/
+/-- every id (0 included: the index stores the first vector whose own id is 0 under key 0) is
+    added at most once -/
 def freshAdds (ops : List (Op V)) : Bool :=
-  let ids := Flat.addedIds (ops.map Op.toFlat)
-  ids.all (· != 0) && nodupB ids
+  nodupB (Flat.addedIds (ops.map Op.toFlat))
 
 /-- a predicate on (pre-state, op) holds along the whole run, and `fin` on the last state -/
 def along (p : State V → Op V → Bool) (fin : State V → Bool) (s : State V) : List (Op V) → Bool
